@@ -163,6 +163,15 @@ def opBin (a : Array Rat) : String :=
   let o := binImage img (i a 0)
   s!"{o.n0} {o.n1} {o.n2} | " ++ " ".intercalate (o.data.toList.map Canon.canon)
 
+/-- `avgsplit nvox n nset ndraws d… data(n·nvox)` → per set `840·half0 | 840·half1` (set-major) -/
+def opAvgSplit (a : Array Rat) : String :=
+  let nvox := (i a 0).toNat; let n := (i a 1).toNat; let nset := (i a 2).toNat; let nd := (i a 3).toNat
+  let stream := (a.extract 4 (4 + nd)).toList.map fun r => r.floor.toNat
+  let data := (a.extract (4 + nd) (4 + nd + n * nvox)).toList
+  let stack := (List.range n).map fun k => (data.drop (k * nvox)).take nvox
+  let shw (l : List Rat) := " ".intercalate (l.map fun x => Canon.canon (x * 840))
+  " ; ".intercalate ((averageSplit nvox stack nset stream).map fun e => shw e.1 ++ " | " ++ shw e.2)
+
 /-- `imgtab <encoded history>` (see `Model.parseOp`) → the observation after every operation -/
 def opImgTab (a : Array Rat) : String :=
   let xs := a.toList.map (·.floor)
@@ -596,6 +605,7 @@ def dispatch (name : String) (a : Array Rat) : Option String :=
   | "bin" => some (opBin a)
   | "binaxis" => some (opBinAxis a)
   | "imgtab" => some (opImgTab a)
+  | "avgsplit" => some (opAvgSplit a)
   | "table" => some (opTable a)
   | "frame" => some (opFrame a)
   | "pose" => some (opPose a)
